@@ -1165,18 +1165,22 @@ def _decision_cases(ctx):
 
 
 def _squarings(E0, I0, E, I, smax):
-    """all j <= smax with (E, I) bitwise equal to j passes of `I += I.dot(E); E = E.dot(E)` from (E0, I0)"""
-    hits = []
-    Ej = np.array(E0, float)
-    Ij = None if I0 is None else np.array(I0, float)
+    """all j <= smax with (E, I) bitwise equal to j passes of `I += I.dot(E); E = E.dot(E)` from (E0, I0)
+    (`E.dot(I)` is accepted as well: the same product in exact arithmetic, functions of one matrix commute)"""
+    hits = set()
     with np.errstate(all="ignore"):
-        for j in range(smax + 1):
-            if np.array_equal(Ej, E, equal_nan=True) and (Ij is None or np.array_equal(Ij, I, equal_nan=True)):
-                hits.append(j)
-            if Ij is not None:
-                Ij = Ij + Ij.dot(Ej)
-            Ej = Ej.dot(Ej)
-    return hits
+        for left in (False, True):
+            Ej = np.array(E0, float)
+            Ij = None if I0 is None else np.array(I0, float)
+            for j in range(smax + 1):
+                if np.array_equal(Ej, E, equal_nan=True) and (Ij is None or np.array_equal(Ij, I, equal_nan=True)):
+                    hits.add(j)
+                if Ij is not None:
+                    Ij = Ij + (Ej.dot(Ij) if left else Ij.dot(Ej))
+                Ej = Ej.dot(Ej)
+            if I0 is None:
+                break
+    return sorted(hits)
 
 
 def _three(rep):
